@@ -33,7 +33,17 @@ HAND["c13"] = with_include([
     o_sec("tm", [o_int("x", 1), o_list("str", "zl", None), o_sec("deep", [o_int("d", 4)], F_MULTI | F_TITLE)], F_MULTI | F_TITLE),
     o_sec("multi", [o_int("x", 1)], F_MULTI),
 ])
-FAIL_KINDS = ["missing", "directory", "self", "too-deep", "bad-content", "unterminated"]
+FAIL_KINDS = ["missing", "directory", "self", "too-deep", "bad-content", "unterminated", "missing-abs"]
+
+
+def shadow(s, under, abs_path, content):
+    """a decoy: the absolute path replicated below the directory `under` (a regular, acceptable file)"""
+    cur = under
+    comps = [c for c in abs_path.split("/") if c]
+    for c in comps[:-1]:
+        cur = os.path.join(cur, c)
+        s.add("mkdir", hx(cur))
+    s.add("mkfile", hx(os.path.join(cur, comps[-1])), hx(content))
 
 
 def build_files(text, intervals):
@@ -95,7 +105,8 @@ class C13:
             "depth into a random tree of include files (nesting 1..12, incl. chains), files placed in the working directory "
             "(relative or absolute names) or behind a search path of 1-3 directories; differential oracle: same return code "
             "and tree as the flat text for nesting <= 10, PARSE_ERROR with >= 1 diagnostic beyond; an error placed after the "
-            "include is reported at the including source's name and line; failure histories (missing file, directory, "
+            "include is reported at the including source's name and line; failure histories (missing relative file, missing "
+            "absolute file and directory - both with a decoy regular file at <search dir>/<that absolute name> -, "
             "self-inclusion, 11-deep chain, bad content, unterminated string; each repeated 1-12 times) followed by the "
             "split text must behave as in a fresh process; afterwards include depth 0, no stream/descriptor/memory left. "
             "Non-trivial = >= 2 files, nesting >= 2 or a failure before the success; distinct = distinct (T, split, history)")
@@ -175,6 +186,10 @@ class C13:
         s.add("mkfile", hx(os.path.join(base, "bad.conf")), hx("i_no_such_option = 1\n"))
         s.add("mkfile", hx(os.path.join(base, "self.conf")), hx("include(\"%s\")\n" % (os.path.join(base, "self.conf"))))
         s.add("mkfile", hx(os.path.join(base, "unterm.conf")), hx("s = 'never closed"))
+        # decoys for the absolute failing targets: the same absolute name below every search directory and below cwd
+        for d in dirs + [base]:
+            shadow(s, d, os.path.join(base, "absent.conf"), "# decoy\n")
+            shadow(s, d, os.path.join(base, "adir"), "# decoy\n")
         for k in range(12):
             s.add("mkfile", hx(os.path.join(base, "deep%d.conf" % k)),
                   hx(("include(\"%s\")\n" % os.path.join(base, "deep%d.conf" % (k + 1))) if k < 11 else "# bottom\n"))
@@ -229,7 +244,7 @@ class C13:
             s.add("mkfile", hx(place[en]), hx(files[en]))
         init(4)
         fk = case.get("fail_kind", "missing")
-        target = {"missing": "nonexistent.conf", "directory": os.path.join(base, "adir"), "self": os.path.join(base, "self.conf"),
+        target = {"missing": "nonexistent.conf", "missing-abs": os.path.join(base, "absent.conf"), "directory": os.path.join(base, "adir"), "self": os.path.join(base, "self.conf"),
                   "too-deep": os.path.join(base, "deep0.conf"), "bad-content": os.path.join(base, "bad.conf"),
                   "unterminated": os.path.join(base, "unterm.conf")}[fk]
         hist = []
@@ -279,7 +294,7 @@ class C13:
                                    "error on line %d of %s (after its nested include returned) reported as %r\nfile %r" % (e_line, en, dg[-1], bad_text))
             if fail is None and case.get("fail_repeat"):
                 bad = [k for k in hist if t[k]["rc"] != 1 or not unhex_diag(t[k])]
-                misplaced = [k for k in hist if fk == "missing" and unhex_diag(t[k]) and unhex_diag(t[k])[-1][:2] != ("[buf]", 1)]
+                misplaced = [k for k in hist if fk in ("missing", "missing-abs") and unhex_diag(t[k]) and unhex_diag(t[k])[-1][:2] != ("[buf]", 1)]
                 if bad:
                     e = t[bad[0]]
                     fail = Failure("failing-include-not-reported/%s" % fk, "include of %s: rc %d diag %r" % (target, e["rc"], unhex_diag(e)))
